@@ -682,3 +682,711 @@ Proof.
   change (depth (newParser input)) with 0 in D.
   rewrite Y1, D. cbn. rewrite Y1, Y3. reflexivity.
 Qed.
+
+Definition pkeeps (p p' : parser) : Prop := keeps (lx p) (lx p').
+Lemma pkeeps_refl p : pkeeps p p. Proof. apply keeps_refl. Qed.
+Lemma pkeeps_trans a b c : pkeeps a b -> pkeeps b c -> pkeeps a c.
+Proof. apply keeps_trans. Qed.
+
+Ltac pk_same := unfold pkeeps; apply keeps_same; reflexivity.
+
+Lemma raw_next_keeps fuel : forall p t p', raw_next fuel p = (t, p') -> pkeeps p p'.
+Proof.
+  induction fuel as [|f IH]; intros p t p' H; cbn [raw_next] in H; [injection H as _ <-; pk_same|].
+  destruct (NextToken (lex_fuel (lx p)) (lx p)) as [r l] eqn:Hn. pose proof (NextToken_keeps _ _ _ _ Hn) as K.
+  destruct r as [[t0|]|]; try (injection H as _ <-; exact K).
+  destruct (is_TError t0); [|injection H as _ <-; exact K].
+  eapply pkeeps_trans; [|eapply IH; exact H]. exact K.
+Qed.
+Lemma raw_keeps p t p' : raw p = (t, p') -> pkeeps p p'.
+Proof. apply raw_next_keeps. Qed.
+
+Lemma concat_loop_keeps fuel : forall t p r p', concat_loop fuel t p = (r, p') -> pkeeps p p'.
+Proof.
+  induction fuel as [|f IH]; intros t p r p' H; cbn [concat_loop] in H; [injection H as _ <-; pk_same|].
+  destruct (raw p) as [nt p1] eqn:H1. pose proof (raw_keeps _ _ _ H1) as K1.
+  destruct nt as [nt'|]; [|injection H as _ <-; exact K1].
+  destruct (is_TUnquoted nt' && str_eqb (t_text nt') s_plus); [|injection H as _ <-; exact K1].
+  destruct (raw p1) as [nnt p2] eqn:H2. pose proof (raw_keeps _ _ _ H2) as K2.
+  destruct nnt as [nnt'|]; [|injection H as _ <-; eapply pkeeps_trans; eauto].
+  destruct (is_TString nnt'); [|injection H as _ <-; eapply pkeeps_trans; eauto].
+  eapply pkeeps_trans; [exact K1|]. eapply pkeeps_trans; [exact K2|]. eapply IH; exact H.
+Qed.
+
+Lemma pnext_keeps p r p' : pnext p = (r, p') -> pkeeps p p'.
+Proof.
+  unfold pnext. destruct (toks p); [|intro H; injection H as _ <-; pk_same].
+  destruct (raw p) as [t p1] eqn:H1. pose proof (raw_keeps _ _ _ H1) as K1.
+  destruct t as [t'|]; [|intro H; injection H as _ <-; exact K1].
+  destruct (is_TString t'); [|intro H; injection H as _ <-; exact K1].
+  intro H. eapply pkeeps_trans; [exact K1|eapply concat_loop_keeps; exact H].
+Qed.
+
+Lemma add_err_nonempty p pos k subj : errs (lx (add_err p pos k subj)) <> [].
+Proof. discriminate. Qed.
+
+Lemma subs_loop_keeps ns mk : (forall p r p', ns p = (r, p') -> pkeeps p p') ->
+  forall n p acc r p', subs_loop ns mk n p acc = (r, p') -> pkeeps p p'.
+Proof.
+  intros Hns. induction n as [|n IH]; intros p acc r p' H; cbn [subs_loop] in H; [injection H as _ <-; pk_same|].
+  destruct (ns p) as [r1 p1] eqn:H1. pose proof (Hns _ _ _ H1) as K1.
+  destruct r1; try (injection H as _ <-; exact K1); (eapply pkeeps_trans; [exact K1|eapply IH; exact H]).
+Qed.
+
+Lemma nextStatement_keeps fuel : forall p r p', nextStatement fuel p = (r, p') -> pkeeps p p'.
+Proof.
+  induction fuel as [|f IH]; intros p r p' H; [cbn [nextStatement] in H; injection H as _ <-; pk_same|].
+  rewrite nextStatement_eq in H.
+  destruct (pnext p) as [t p1] eqn:H1. pose proof (pnext_keeps _ _ _ H1) as K1.
+  destruct t as [t|]; [|injection H as _ <-; exact K1].
+  destruct (is_TChar cRB t); [injection H as _ <-; exact K1|].
+  destruct (negb (is_TUnquoted t)); [injection H as _ <-; intros _; apply add_err_nonempty|].
+  unfold ns_tail in H. cbv zeta in H.
+  destruct (pnext (with_lx p1 (with_inPattern (lx p1) (str_eqb (t_text t) s_pattern)))) as [t2 p3] eqn:H3.
+  pose proof (pnext_keeps _ _ _ H3) as K3.
+  assert (K13 : pkeeps p (with_lx p3 (with_inPattern (lx p3) false))).
+  { eapply pkeeps_trans; [exact K1|]. intro Q. apply K3. exact Q. }
+  set (p4 := with_lx p3 (with_inPattern (lx p3) false)) in *.
+  assert (Tail : forall has arg t3 p5, pkeeps p p5 ->
+            match t3 with
+            | None => (RNil, add_err p5 None EUnexpectedEOF None)
+            | Some t3 =>
+              if is_TChar cSEMI t3 then (RStmt (Stmt (t_text t) has arg (t_line t) (t_col t) (t_off t) []), p5)
+              else if is_TChar cLB t3 then
+                subs_loop (nextStatement f) (fun l => Stmt (t_text t) has arg (t_line t) (t_col t) (t_off t) l) f
+                  {| lx := lx p5; toks := toks p5; depth := depth p5 + 1; hb_line := hb_line p5;
+                     hb_col := hb_col p5; hb_off := hb_off p5; oof := oof p5 |} []
+              else (RIgnore, add_err p5 (tok_pos t3) ESyntax (Some (t_off t3)))
+            end = (r, p') -> pkeeps p p').
+  { intros has arg t3 p5 K5 Q. destruct t3 as [t3|]; [|injection Q as _ <-; intros _; apply add_err_nonempty].
+    destruct (is_TChar cSEMI t3); [injection Q as _ <-; exact K5|].
+    destruct (is_TChar cLB t3); [|injection Q as _ <-; intros _; apply add_err_nonempty].
+    eapply pkeeps_trans; [exact K5|]. pose proof (subs_loop_keeps _ _ IH _ _ _ _ _ Q) as K6. exact K6. }
+  destruct t2 as [a|].
+  - destruct (is_TString a || is_TUnquoted a).
+    + destruct (pnext p4) as [t3 p5] eqn:H5. pose proof (pnext_keeps _ _ _ H5) as K5.
+      apply (Tail true (t_text a) t3 p5 (pkeeps_trans _ _ _ K13 K5) H).
+    + apply (Tail false [] (Some a) p4 K13 H).
+  - apply (Tail false [] None p4 K13 H).
+Qed.
+
+Lemma parse_loop_keeps fuel : forall n p acc ss p', parse_loop fuel n p acc = (ss, p') -> pkeeps p p'.
+Proof.
+  induction n as [|n IH]; intros p acc ss p' H; cbn [parse_loop] in H; [injection H as _ <-; pk_same|].
+  destruct (nextStatement fuel p) as [r p1] eqn:H1. pose proof (nextStatement_keeps _ _ _ _ H1) as K1.
+  destruct r; try (injection H as _ <-; exact K1); try (eapply pkeeps_trans; [exact K1|eapply IH; exact H]).
+  intros _. pose proof (IH _ _ _ _ H) as K2. apply K2. apply add_err_nonempty.
+Qed.
+
+(* ================================================================ C02: the parser rejects what the reference reader rejects *)
+Definition perrs (p : parser) : Prop := errs (lx p) <> [].
+
+Lemma raw_rej text p s : ~ In EOFR text -> lf_term text -> glex text (lx p) s -> errcnt (lx p) = O ->
+  read_token text (inPattern (lx p)) s = TReject -> forall t p', raw p = (t, p') -> perrs p'.
+Proof.
+  intros NE LT G Hc Hr t p' H.
+  assert (Hf : (2 * length s + 4 <= lex_fuel (lx p))%nat).
+  { unfold lex_fuel. destruct G as (_ & _ & _ & ->). lia. }
+  unfold raw, raw_fuel in H. replace (length (after (cu (lx p))) + 12)%nat with (S (length (after (cu (lx p))) + 11)) in H by lia.
+  cbn [raw_next] in H.
+  destruct (NextToken (lex_fuel (lx p)) (lx p)) as [r l] eqn:Hn.
+  pose proof (NextToken_rej text NE LT (length s) s (lx p) _ (le_n _) G Hc Hf Hr _ _ Hn) as E.
+  destruct r as [[t0|]|]; try (injection H as _ <-; exact E).
+  destruct (is_TError t0); [|injection H as _ <-; exact E].
+  apply (raw_next_keeps _ _ _ _ H). exact E.
+Qed.
+
+Lemma pnext_rej text p s : ~ In EOFR text -> lf_term text -> ppos text p s -> errcnt (lx p) = O ->
+  read_token text (inPattern (lx p)) s = TReject -> forall t p', pnext p = (t, p') -> perrs p'.
+Proof.
+  intros NE LT P Hc Hr t p' H. destruct P as [Ht G|t0 c s1 Ht Hq Hr' G].
+  - unfold pnext in H. rewrite Ht in H. destruct (raw p) as [t1 p1] eqn:H1.
+    pose proof (raw_rej text p s NE LT G Hc Hr _ _ H1) as E.
+    destruct t1 as [t1|]; [|injection H as _ <-; exact E].
+    destruct (is_TString t1); [|injection H as _ <-; exact E].
+    apply (concat_loop_keeps _ _ _ _ _ H). exact E.
+  - rewrite (read_token_punct_indep text _ s c s1 Hr') in Hr. discriminate.
+Qed.
+
+(* a quoted string where the parser asks for a token: what comes back is a string token *)
+Lemma concat_loop_code fuel : forall t p r p', concat_loop fuel t p = (r, p') -> exists t', r = Some t' /\ t_code t' = t_code t.
+Proof.
+  induction fuel as [|f IH]; intros t p r p' H; cbn [concat_loop] in H; [injection H as <- _; eauto|].
+  destruct (raw p) as [nt p1]. destruct nt as [nt'|]; [|injection H as <- _; eauto].
+  destruct (is_TUnquoted nt' && str_eqb (t_text nt') s_plus); [|injection H as <- _; eauto].
+  destruct (raw p1) as [nnt p2]. destruct nnt as [nnt'|]; [|injection H as <- _; eauto].
+  destruct (is_TString nnt'); [|injection H as <- _; eauto].
+  destruct (IH _ _ _ _ H) as (t' & A & B). exists t'. split; [exact A|exact B].
+Qed.
+
+Lemma pnext_string text p s u s1 : ~ In EOFR text -> lf_term text -> ppos text p s ->
+  read_token text (inPattern (lx p)) s = TOk (KStr u) s1 ->
+  exists t' p1, pnext p = (Some t', p1) /\ t_code t' = TString /\ pkeeps p p1.
+Proof.
+  intros NE LT P Hr. destruct P as [Ht G|t0 c s2 Ht Hq Hr' G].
+  - pose proof (raw_sim text p s NE LT G) as R. rewrite Hr in R.
+    destruct R as (t & p1 & E & M & SE & _ & _).
+    destruct (pnext p) as [r p2] eqn:Hp. pose proof (pnext_keeps _ _ _ Hp) as K.
+    unfold pnext in Hp. rewrite Ht, E in Hp. destruct (is_code _ _ _ M) as (Hs & _). rewrite Hs in Hp.
+    destruct (concat_loop_code _ _ _ _ _ Hp) as (t' & -> & Hc). exists t', p2. split; [reflexivity|]. split; [|exact K].
+    rewrite Hc. apply M.
+  - rewrite (read_token_punct_indep text _ s c s2 Hr') in Hr. discriminate.
+Qed.
+
+(* the token after the argument that makes the statement reader report an error *)
+Definition bad_t3 (t3 : option token) : Prop :=
+  match t3 with None => True | Some t => is_TChar cSEMI t = false /\ is_TChar cLB t = false end.
+
+Lemma tok_not_open k t : tok_matches k t -> k <> KPunct cSEMI -> k <> KPunct cLB -> bad_t3 (Some t).
+Proof.
+  intros M N1 N2. destruct k as [u|u|c|]; cbn in M; try contradiction.
+  - destruct (is_code _ _ _ M) as (_ & _ & H). split; apply H.
+  - destruct (is_code _ _ _ M) as (_ & _ & H). split; apply H.
+  - destruct (is_code _ _ _ M) as (_ & _ & H). split; rewrite H; apply N.eqb_neq; intros <-; [apply N1|apply N2]; reflexivity.
+Qed.
+
+Lemma read_token_punct_indep' text pat s c s3 :
+  read_token text pat s = TOk (KPunct c) s3 -> read_token text false s = TOk (KPunct c) s3.
+Proof.
+  unfold read_token. destruct (skip InGap s) as [[|c0 r]|]; try discriminate.
+  destruct (punct c0); [auto|]. destruct (c0 =? cSQ)%N; [destruct (squoted r) as [[u s']|]; discriminate|].
+  destruct (c0 =? cDQ)%N.
+  - destruct (dquoted pat _ r); discriminate.
+  - destruct (unquoted (c0 :: r)) as [u s']. destruct (opener_in (tl u)); discriminate.
+Qed.
+Lemma read_token_end_indep' text pat s s3 :
+  read_token text pat s = TOk KEnd s3 -> read_token text false s = TOk KEnd s3.
+Proof.
+  unfold read_token. destruct (skip InGap s) as [[|c0 r]|]; try discriminate; [auto|].
+  destruct (punct c0); [discriminate|]. destruct (c0 =? cSQ)%N; [destruct (squoted r) as [[u s']|]; discriminate|].
+  destruct (c0 =? cDQ)%N.
+  - destruct (dquoted pat _ r); discriminate.
+  - destruct (unquoted (c0 :: r)) as [u s']. destruct (opener_in (tl u)); discriminate.
+Qed.
+
+Definition notopen (R : tres) : Prop :=
+  R <> TAmbiguous /\ (forall s3, R <> TOk (KPunct cSEMI) s3) /\ (forall s3, R <> TOk (KPunct cLB) s3).
+
+Lemma pnext_bad text p s : ~ In EOFR text -> lf_term text -> ppos text p s -> errcnt (lx p) = O ->
+  notopen (read_token text (inPattern (lx p)) s) ->
+  forall t3 p', pnext p = (t3, p') -> perrs p' \/ bad_t3 t3.
+Proof.
+  intros NE LT P Hc (N0 & N1 & N2) t3 p' H.
+  destruct (read_token text (inPattern (lx p)) s) as [k s'| |] eqn:Hr; [| |contradiction].
+  - destruct k as [u|u|c|].
+    + destruct (pnext_plain text p s (KUnq u) s' NE LT P Hr ltac:(discriminate)) as (t & p1 & E & M & _).
+      rewrite E in H. injection H as <- <-. right. apply (tok_not_open _ _ M); discriminate.
+    + destruct (pnext_string text p s u s' NE LT P Hr) as (t & p1 & E & Hcode & _).
+      rewrite E in H. injection H as <- <-. right. unfold bad_t3, is_TChar. rewrite Hcode. auto.
+    + destruct (pnext_plain text p s (KPunct c) s' NE LT P Hr ltac:(discriminate)) as (t & p1 & E & M & _).
+      rewrite E in H. injection H as <- <-. right. apply (tok_not_open _ _ M); intro Q; injection Q as ->; [apply (N1 s')|apply (N2 s')]; reflexivity.
+    + destruct (pnext_plain text p s KEnd s' NE LT P Hr ltac:(discriminate)) as (p1 & E & _).
+      rewrite E in H. injection H as <- <-. right. exact I.
+  - left. eapply pnext_rej; eauto.
+Qed.
+
+Lemma str_eqb_eq a : forall b, str_eqb a b = true -> a = b.
+Proof.
+  induction a as [|x a IH]; intros [|y b] H; cbn [str_eqb] in H; try discriminate; [reflexivity|].
+  apply andb_true_iff in H. destruct H as [H1 H2]. apply N.eqb_eq in H1. subst. f_equal. apply IH. exact H2.
+Qed.
+
+(* what the concatenation loop leaves behind, whatever follows the quoted pieces *)
+Definition lookahead_left (text : str) (pat : bool) (p' : parser) (s2 : str) : Prop :=
+  match read_token text pat s2 with
+  | TOk KEnd _ => toks p' = [] /\ state (lx p') = SDone /\ items (lx p') = []
+  | TOk k _ => exists nt, toks p' = [nt] /\ tok_matches k nt
+  | _ => True
+  end.
+
+Definition concat_result (text : str) (pat : bool) (res : option token * parser) (a : ares) : Prop :=
+  match a with
+  | AAmbiguous => True
+  | AReject => perrs (snd res) \/ exists nt rest, toks (snd res) = nt :: rest /\ tokq TUnquoted s_plus nt
+  | AOk _ arg s2 => exists t', fst res = Some t' /\ tokq TString arg t' /\ lookahead_left text pat (snd res) s2
+  end.
+
+Lemma concat_loop_gen text : ~ In EOFR text -> lf_term text -> forall fs pat acc s1 fm t p,
+  (fs <= fm)%nat -> toks p = [] -> glex text (lx p) s1 -> errcnt (lx p) = O -> inPattern (lx p) = pat -> tokq TString acc t ->
+  concat_result text pat (concat_loop fm t p) (pieces fs text pat acc s1).
+Proof.
+  intros NE LT. induction fs as [|fs IH]; intros pat acc s1 fm t p Hfm Ht G Hc Hpat Hq; [exact I|].
+  destruct fm as [|fm]; [lia|]. cbn [pieces concat_loop].
+  pose proof (raw_sim text p s1 NE LT G) as R1. rewrite Hpat in R1.
+  destruct (raw p) as [nt0 p1] eqn:Hraw.
+  destruct (read_token text pat s1) as [[u|u|c1|] s1'| |] eqn:E1.
+  - destruct R1 as (nt & p1' & Q & M1 & SE1 & (F1a & F1b & F1c) & G1). injection Q as -> <-.
+    destruct (is_code _ _ _ M1) as (_ & Hu & _). rewrite Hu. destruct M1 as [M1c M1t]. rewrite M1t. cbn [andb].
+    destruct (str_eqb u s_plus) eqn:Eplus.
+    + pose proof (raw_sim text p1 s1' NE LT G1) as R2.
+      assert (Hpat1 : inPattern (lx p1) = pat) by (destruct SE1 as (_ & _ & ->); exact Hpat). rewrite Hpat1 in R2.
+      assert (Hc1 : errcnt (lx p1) = O) by (destruct SE1 as (_ & -> & _); exact Hc).
+      assert (Hplus : tokq TUnquoted s_plus nt) by (split; [exact M1c|rewrite M1t; apply str_eqb_eq; exact Eplus]).
+      destruct (raw p1) as [nnt0 p2] eqn:Hraw2.
+      destruct (read_token text pat s1') as [[v|v|c2|] s2'| |] eqn:E2.
+      * destruct R2 as (nnt & p2' & Q & M2 & _). injection Q as -> <-. destruct (is_code _ _ _ M2) as (-> & _).
+        right. exists nt, (nnt :: toks p2). split; reflexivity || exact Hplus.
+      * destruct R2 as (nnt & p2' & Q & M2 & SE2 & (F2a & F2b & F2c) & G2). injection Q as -> <-.
+        destruct (is_code _ _ _ M2) as (-> & _).
+        apply (IH pat (acc ++ v) s2' fm (set_text t (t_text t ++ t_text nnt)) p2 ltac:(lia)).
+        -- rewrite F2a, F1a. exact Ht.
+        -- exact G2.
+        -- destruct SE2 as (_ & -> & _). exact Hc1.
+        -- destruct SE2 as (_ & _ & ->). exact Hpat1.
+        -- destruct Hq as [Hq1 Hq2]. destruct M2 as [_ M2t]. split; [exact Hq1|]. cbn [set_text t_text]. rewrite Hq2, M2t. reflexivity.
+      * destruct R2 as (nnt & p2' & Q & M2 & _). injection Q as -> <-. destruct (is_code _ _ _ M2) as (-> & _).
+        right. exists nt, (nnt :: toks p2). split; reflexivity || exact Hplus.
+      * destruct R2 as (p2' & Q & _). injection Q as -> <-.
+        right. exists nt, (toks p2). split; reflexivity || exact Hplus.
+      * left. pose proof (raw_rej text p1 s1' NE LT G1 Hc1 ltac:(rewrite Hpat1; exact E2) _ _ Hraw2) as E.
+        destruct nnt0 as [nnt'|]; [destruct (is_TString nnt')|]; cbn [snd]; try exact E.
+        eapply concat_loop_keeps; [|exact E]. apply surjective_pairing.
+      * exact I.
+    + exists t. split; [reflexivity|]. split; [exact Hq|]. unfold lookahead_left. rewrite E1.
+      exists nt. split; [cbn [snd with_toks toks]; rewrite F1a, Ht; reflexivity|split; assumption].
+  - destruct R1 as (nt & p1' & Q & M1 & SE1 & (F1a & F1b & F1c) & G1). injection Q as -> <-.
+    destruct (is_code _ _ _ M1) as (_ & Hu & _). rewrite Hu. cbn [andb].
+    exists t. split; [reflexivity|]. split; [exact Hq|]. unfold lookahead_left. rewrite E1.
+    exists nt. split; [cbn [snd with_toks toks]; rewrite F1a, Ht; reflexivity|exact M1].
+  - destruct R1 as (nt & p1' & Q & M1 & SE1 & (F1a & F1b & F1c) & G1). injection Q as -> <-.
+    destruct (is_code _ _ _ M1) as (_ & Hu & _). rewrite Hu. cbn [andb].
+    exists t. split; [reflexivity|]. split; [exact Hq|]. unfold lookahead_left. rewrite E1.
+    exists nt. split; [cbn [snd with_toks toks]; rewrite F1a, Ht; reflexivity|exact M1].
+  - destruct R1 as (p1' & Q & SE1 & (F1a & F1b & F1c) & Hs & Hi). injection Q as -> <-.
+    exists t. split; [reflexivity|]. split; [exact Hq|]. unfold lookahead_left. rewrite E1.
+    split; [cbn [snd]; rewrite F1a; exact Ht|split; assumption].
+  - left. pose proof (raw_rej text p s1 NE LT G Hc ltac:(rewrite Hpat; exact E1) _ _ Hraw) as E.
+    destruct nt0 as [nt'|]; [|exact E].
+    destruct (is_TUnquoted nt' && str_eqb (t_text nt') s_plus); [|exact E].
+    destruct (raw p1) as [nnt p2] eqn:Hraw2. pose proof (raw_keeps _ _ _ Hraw2 E) as E2.
+    destruct nnt as [nnt'|]; [|exact E2]. destruct (is_TString nnt'); [|exact E2].
+    eapply concat_loop_keeps; [|exact E2]. apply surjective_pairing.
+  - exact I.
+Qed.
+
+Lemma pnext_pop p t r : toks p = t :: r -> pnext p = (Some t, with_toks p r).
+Proof. intro H. unfold pnext. rewrite H. reflexivity. Qed.
+
+Lemma raw_done p : state (lx p) = SDone -> items (lx p) = [] -> exists p', raw p = (None, p').
+Proof.
+  intros Hs Hi. unfold raw, raw_fuel. replace (length (after (cu (lx p))) + 12)%nat with (S (length (after (cu (lx p))) + 11)) by lia.
+  cbn [raw_next]. rewrite (NextToken_done _ _ Hi Hs). eexists; reflexivity.
+Qed.
+
+Lemma pieces_lookahead text pat : forall f acc s has arg s2, pieces f text pat acc s = AOk has arg s2 ->
+  exists k s3, read_token text pat s2 = TOk k s3.
+Proof.
+  induction f as [|f IH]; intros acc s has arg s2 H; [discriminate|]. cbn [pieces] in H.
+  destruct (read_token text pat s) as [[u|u|c|] s1| |] eqn:E; try discriminate.
+  - destruct (str_eqb u s_plus).
+    + destruct (read_token text pat s1) as [[v|v|c|] s1'| |]; try discriminate. eapply IH; eauto.
+    + injection H as _ _ <-. eauto.
+  - injection H as _ _ <-. eauto.
+  - injection H as _ _ <-. eauto.
+  - injection H as _ _ <-. eauto.
+Qed.
+
+(* the argument reader when the statement cannot go on with ; or { *)
+Lemma read_arg_rej text p s1 pat : ~ In EOFR text -> lf_term text ->
+  toks p = [] -> glex text (lx p) s1 -> errcnt (lx p) = O ->
+  (argument text pat s1 = AReject \/
+   exists has arg s2, argument text pat s1 = AOk has arg s2 /\ notopen (read_token text false s2)) ->
+  forall has' arg' t3 p', read_arg p pat = (has', arg', t3, p') -> perrs p' \/ bad_t3 t3.
+Proof.
+  intros NE LT Ht G Hc Hspec has' arg' t3 p' H. unfold read_arg in H. cbv zeta in H.
+  set (p0 := with_lx p (with_inPattern (lx p) pat)) in *.
+  assert (G0 : glex text (lx p0) s1) by (apply glex_inPattern; exact G).
+  assert (P0 : ppos text p0 s1) by (apply PP_direct; [exact Ht|exact G0]).
+  assert (Hc0 : errcnt (lx p0) = O) by exact Hc.
+  destruct (pnext p0) as [t2 p1] eqn:Hn1.
+  unfold argument in Hspec.
+  destruct (read_token text pat s1) as [[u|u|c1|] s1'| |] eqn:E1.
+  - (* unquoted argument *)
+    destruct Hspec as [Q|(has & arg & s2 & Q & NO)]; [discriminate|]. injection Q as <- <- <-.
+    destruct (pnext_plain text p0 s1 (KUnq u) s1' NE LT P0 E1 ltac:(discriminate)) as (t & p1' & Q & M & (SE & D1 & O1) & T1 & G1).
+    rewrite Hn1 in Q. injection Q as -> <-.
+    destruct (is_code _ _ _ M) as (_ & Hu & _). rewrite Hu, orb_true_r in H.
+    set (p2 := with_lx p1 (with_inPattern (lx p1) false)) in *.
+    destruct (pnext p2) as [t3' p3] eqn:Hn3. injection H as _ _ <- <-.
+    apply (pnext_bad text p2 s1' NE LT (PP_direct text p2 s1' T1 (glex_inPattern _ _ _ _ G1))); auto.
+    destruct SE as (_ & S2 & _). cbn [p2 with_lx lx with_inPattern errcnt]. rewrite S2. exact Hc.
+  - (* quoted pieces *)
+    unfold pnext in Hn1. change (toks p0) with (toks p) in Hn1. rewrite Ht in Hn1.
+    pose proof (raw_sim text p0 s1 NE LT G0) as R. change (inPattern (lx p0)) with pat in R. rewrite E1 in R.
+    destruct R as (ts & pr & Er & M & SE & (F1 & F2 & F3) & G1). rewrite Er in Hn1.
+    destruct (is_code _ _ _ M) as (Hs & _). rewrite Hs in Hn1.
+    assert (Hpr : inPattern (lx pr) = pat) by (destruct SE as (_ & _ & ->); reflexivity).
+    assert (Hcr : errcnt (lx pr) = O) by (destruct SE as (_ & -> & _); exact Hc).
+    assert (Hfm : (S (length s1') <= S (length (after (cu (lx pr)))))%nat) by (destruct G1 as (_ & _ & _ & ->); lia).
+    pose proof (concat_loop_gen text NE LT _ pat u s1' _ ts pr Hfm ltac:(rewrite F1; exact Ht) G1 Hcr Hpr M) as CR.
+    rewrite Hn1 in CR. unfold concat_result in CR. cbn [fst snd] in CR.
+    destruct (pieces (S (length s1')) text pat u s1') as [has arg s2| |] eqn:Ep.
+    + destruct Hspec as [Q|(has0 & arg0 & s20 & Q & NO)]; [discriminate|]. injection Q as <- <- <-.
+      destruct CR as (t' & -> & Mt & LA). destruct (is_code _ _ _ Mt) as (Hs' & _). rewrite Hs' in H. cbn [orb] in H.
+      set (p2 := with_lx p1 (with_inPattern (lx p1) false)) in *.
+      destruct (pnext p2) as [t3' p3] eqn:Hn3. injection H as _ _ <- <-.
+      unfold lookahead_left in LA. destruct NO as (N0 & N1 & N2).
+      destruct (read_token text pat s2) as [[v|v|c2|] s3| |] eqn:E2.
+      * destruct LA as (nt & Tn & Mn). rewrite (pnext_pop p2 nt [] Tn) in Hn3. injection Hn3 as <- <-.
+        right. apply (tok_not_open _ _ Mn); discriminate.
+      * destruct LA as (nt & Tn & Mn). rewrite (pnext_pop p2 nt [] Tn) in Hn3. injection Hn3 as <- <-.
+        right. apply (tok_not_open _ _ Mn); discriminate.
+      * destruct LA as (nt & Tn & Mn). rewrite (pnext_pop p2 nt [] Tn) in Hn3. injection Hn3 as <- <-.
+        right. pose proof (read_token_punct_indep' _ _ _ _ _ E2) as E2'.
+        apply (tok_not_open _ _ Mn); intro Q; injection Q as ->; [apply (N1 s3)|apply (N2 s3)]; exact E2'.
+      * destruct LA as (Tn & Sd & Id).
+        destruct (raw_done p2 Sd Id) as (pd & Hd). unfold pnext in Hn3. change (toks p2) with (toks p1) in Hn3.
+        rewrite Tn, Hd in Hn3. injection Hn3 as <- <-. right. exact I.
+      * destruct (pieces_lookahead _ _ _ _ _ _ _ _ Ep) as (k & s3 & Q). rewrite E2 in Q. discriminate.
+      * destruct (pieces_lookahead _ _ _ _ _ _ _ _ Ep) as (k & s3 & Q). rewrite E2 in Q. discriminate.
+    + (* the pieces are rejected *)
+      destruct (concat_loop_code _ _ _ _ _ Hn1) as (t' & -> & Hcode).
+      assert (Hs' : is_TString t' = true) by (unfold is_TString; rewrite Hcode; destruct M as [-> _]; reflexivity).
+      rewrite Hs' in H. cbn [orb] in H.
+      set (p2 := with_lx p1 (with_inPattern (lx p1) false)) in *.
+      destruct (pnext p2) as [t3' p3] eqn:Hn3. injection H as _ _ <- <-.
+      destruct CR as [E|(nt & rest & Tn & Mn)].
+      * left. apply (pnext_keeps _ _ _ Hn3). exact E.
+      * rewrite (pnext_pop p2 nt rest Tn) in Hn3. injection Hn3 as <- <-. right.
+        destruct (is_code _ _ _ Mn) as (_ & _ & Hch). split; apply Hch.
+    + destruct Hspec as [Q|(has0 & arg0 & s20 & Q & NO)]; discriminate.
+  - (* punctuation right after the keyword *)
+    destruct Hspec as [Q|(has & arg & s2 & Q & NO)]; [discriminate|]. injection Q as <- <- <-.
+    destruct (pnext_plain text p0 s1 (KPunct c1) s1' NE LT P0 E1 ltac:(discriminate)) as (t & p1' & Q & M & _).
+    rewrite Hn1 in Q. injection Q as -> <-.
+    destruct (is_code _ _ _ M) as (Hs & Hu & _). rewrite Hs, Hu in H. cbn [orb] in H. injection H as _ _ <- <-.
+    right. destruct NO as (N0 & N1 & N2). pose proof (read_token_punct_indep' _ _ _ _ _ E1) as E1'.
+    apply (tok_not_open _ _ M); intro Q; injection Q as ->; [apply (N1 s1')|apply (N2 s1')]; exact E1'.
+  - (* end of text right after the keyword *)
+    destruct (pnext_plain text p0 s1 KEnd s1' NE LT P0 E1 ltac:(discriminate)) as (p1' & Q & _).
+    rewrite Hn1 in Q. injection Q as -> <-. injection H as _ _ <- <-. right. exact I.
+  - (* the argument token is rejected *)
+    pose proof (pnext_rej text p0 s1 NE LT P0 Hc0 E1 _ _ Hn1) as E.
+    left. destruct t2 as [a|]; [|injection H as _ _ _ <-; exact E].
+    destruct (is_TString a || is_TUnquoted a); [|injection H as _ _ _ <-; exact E].
+    destruct (pnext (with_lx p1 (with_inPattern (lx p1) false))) as [t3' p3] eqn:Hn3. injection H as _ _ _ <-.
+    apply (pnext_keeps _ _ _ Hn3). exact E.
+  - destruct Hspec as [Q|(has0 & arg0 & s20 & Q & NO)]; discriminate.
+Qed.
+
+Lemma ns_tail_rej f t p r p' : ns_tail f t p = (r, p') ->
+  (forall has arg t3 p2, read_arg p (str_eqb (t_text t) s_pattern) = (has, arg, t3, p2) -> perrs p2 \/ bad_t3 t3) ->
+  perrs p'.
+Proof.
+  rewrite ns_tail_eq. intros H Hb.
+  destruct (read_arg p (str_eqb (t_text t) s_pattern)) as [[[has arg] t3] p2] eqn:Hra.
+  specialize (Hb _ _ _ _ eq_refl).
+  destruct t3 as [t3|]; [|injection H as _ <-; apply add_err_nonempty].
+  destruct (is_TChar cSEMI t3) eqn:E1.
+  - injection H as _ <-. destruct Hb as [E|[Q _]]; [exact E|congruence].
+  - destruct (is_TChar cLB t3) eqn:E2; [|injection H as _ <-; apply add_err_nonempty].
+    destruct Hb as [E|[_ Q]]; [|congruence].
+    apply (subs_loop_keeps _ _ (nextStatement_keeps f) _ _ _ _ _ H). exact E.
+Qed.
+
+(* the reading loop, started at [p], ends up rejecting: after [k] good statements a call either leaves an
+   error behind, or hits the end of the text inside an open block *)
+Inductive fails (mf : nat) : nat -> parser -> Prop :=
+| F_err k p r p' : nextStatement mf p = (r, p') -> perrs p' -> fails mf k p
+| F_open k p p' : nextStatement mf p = (RNil, p') -> depth p + 1 <= depth p' -> fails mf k p
+| F_next k p s p1 : nextStatement mf p = (RStmt s, p1) -> depth p1 = depth p -> fails mf k p1 -> fails mf (S k) p.
+
+Lemma fails_weaken mf k p : fails mf k p -> forall k', (k <= k')%nat -> fails mf k' p.
+Proof.
+  induction 1 as [k p r p' H E|k p p' H D|k p s p1 H D _ IH]; intros k' Hk.
+  - eapply F_err; eauto.
+  - eapply F_open; eauto.
+  - destruct k' as [|k']; [lia|]. eapply F_next; eauto. apply IH. lia.
+Qed.
+
+Lemma subs_loop_fails mf mk : forall k p, fails mf k p -> forall n acc r p', (k < n)%nat ->
+  subs_loop (nextStatement mf) mk n p acc = (r, p') -> perrs p' \/ (r = RNil /\ depth p + 1 <= depth p').
+Proof.
+  induction 1 as [k p r0 p0 H E|k p p0 H D|k p s p1 H D _ IH]; intros n acc r p' Hn Hs;
+    (destruct n as [|n]; [lia|]); cbn [subs_loop] in Hs; rewrite H in Hs.
+  - left. destruct r0; try (injection Hs as _ <-; exact E);
+      apply (subs_loop_keeps _ _ (nextStatement_keeps mf) _ _ _ _ _ Hs); exact E.
+  - injection Hs as <- <-. right. split; [reflexivity|exact D].
+  - destruct (IH n _ _ _ ltac:(lia) Hs) as [E|[-> D']]; [left; exact E|right; split; [reflexivity|lia]].
+Qed.
+
+Lemma parse_loop_fails mf : forall k p, fails mf k p -> forall n acc ss p', (k < n)%nat ->
+  parse_loop mf n p acc = (ss, p') -> perrs p' \/ depth p + 1 <= depth p'.
+Proof.
+  induction 1 as [k p r0 p0 H E|k p p0 H D|k p s p1 H D _ IH]; intros n acc ss p' Hn Hs;
+    (destruct n as [|n]; [lia|]); cbn [parse_loop] in Hs; rewrite H in Hs.
+  - left. destruct r0; try (injection Hs as _ <-; exact E);
+      apply (parse_loop_keeps _ _ _ _ _ _ Hs); try exact E. apply add_err_nonempty.
+  - injection Hs as _ <-. right. exact D.
+  - destruct (IH n _ _ _ ltac:(lia) Hs) as [E|D']; [left; exact E|right; lia].
+Qed.
+
+Lemma parse_loop_reads_brace mf : forall p ss p', reads mf p ss RBrace p' -> forall n acc ss' pf, (length ss < n)%nat ->
+  parse_loop mf n p acc = (ss', pf) -> perrs pf.
+Proof.
+  intros p ss p' H. remember RBrace as r eqn:Er. induction H as [p r p' H Hr|p s p1 ss r p' H _ IH]; intros n acc ss' pf Hn Hs;
+    (destruct n as [|n]; [cbn in Hn; lia|]); cbn [parse_loop] in Hs; rewrite H in Hs.
+  - subst r. apply (parse_loop_keeps _ _ _ _ _ _ Hs). apply add_err_nonempty.
+  - apply (IH Er n _ _ _ ltac:(cbn [length] in Hn; lia) Hs).
+Qed.
+
+Lemma stmts_rej text : ~ In EOFR text -> lf_term text -> forall fs s,
+  stmts fs text s = PReject ->
+  forall p mf, (fs <= mf)%nat -> ppos text p s -> inPattern (lx p) = false -> errcnt (lx p) = O ->
+  exists k, (k < fs)%nat /\ fails mf k p.
+Proof.
+  intros NE LT. induction fs as [|fs IH]; intros s Hs p mf Hmf P Hpat Hc; [discriminate|].
+  destruct mf as [|mf]; [lia|]. cbn [stmts] in Hs.
+  destruct (nextStatement (S mf) p) as [r0 pr] eqn:Hns0.
+  destruct (read_token text false s) as [[kw|u|c|] s1| |] eqn:E1; try discriminate.
+  - (* a keyword *)
+    assert (E1' : read_token text (inPattern (lx p)) s = TOk (KUnq kw) s1) by (rewrite Hpat; exact E1).
+    destruct (pnext_plain text p s (KUnq kw) s1 NE LT P E1' ltac:(discriminate)) as (t & p1 & Hn1 & M & (SE1 & D1 & O1) & T1 & G1).
+    destruct (is_code _ _ _ M) as (_ & Hu & Hch). destruct M as [_ Mt].
+    assert (Hc1 : errcnt (lx p1) = O) by (destruct SE1 as (_ & -> & _); exact Hc).
+    assert (Hns : nextStatement (S mf) p = ns_tail mf t p1).
+    { rewrite nextStatement_eq, Hn1. rewrite (Hch cRB). change (cRB =? _)%N with false. cbv iota. rewrite Hu. reflexivity. }
+    assert (Local : (argument text (str_eqb kw s_pattern) s1 = AReject \/
+                     exists has arg s2, argument text (str_eqb kw s_pattern) s1 = AOk has arg s2 /\ notopen (read_token text false s2)) ->
+                    exists k, (k < S fs)%nat /\ fails (S mf) k p).
+    { intro Hsp. exists O. split; [lia|]. eapply F_err; [exact Hns0|].
+      rewrite Hns in Hns0. apply (ns_tail_rej _ _ _ _ _ Hns0). intros has arg t3 p2 Hra. rewrite Mt in Hra.
+      apply (read_arg_rej text p1 s1 _ NE LT T1 G1 Hc1 Hsp _ _ _ _ Hra). }
+    destruct (argument text (str_eqb kw s_pattern) s1) as [has arg s2| |] eqn:Ea; try discriminate.
+    2:{ apply Local. left. reflexivity. }
+    destruct (read_token text false s2) as [[u|u|c|] s3| |] eqn:E3; try discriminate.
+    1,2,4,5: apply Local; right; exists has, arg, s2; split; [reflexivity|]; rewrite E3; repeat split; discriminate.
+    destruct (N.eqb_spec c cSEMI) as [->|Nsemi].
+    + (* kw [arg] ; then the rest is rejected *)
+      destruct (read_arg_sim text p1 s1 _ has arg s2 cSEMI s3 NE LT T1 G1 Ea E3) as (t3 & p2 & Hra & M3 & T2 & G2 & Hp2 & X1 & X2 & X3 & X4).
+      destruct (is_code _ _ _ M3) as (_ & _ & Hc3).
+      rewrite Hns, ns_tail_eq, Mt, Hra, (Hc3 cSEMI), N.eqb_refl in Hns0. injection Hns0 as <- <-.
+      destruct (stmts fs text s3) as [f1 cl1 r1| |] eqn:Es3; try discriminate.
+      destruct (IH s3 Es3 p2 (S mf) ltac:(lia) (PP_direct text p2 s3 T2 G2) Hp2 ltac:(congruence)) as (k & Hk & Fk).
+      exists (S k). split; [lia|]. eapply F_next; [rewrite Hns, ns_tail_eq, Mt, Hra, (Hc3 cSEMI), N.eqb_refl; reflexivity| |exact Fk]. congruence.
+    + destruct (N.eqb_spec c cLB) as [->|Nlb].
+      2:{ apply Local. right. exists has, arg, s2. split; [reflexivity|]. rewrite E3.
+          split; [discriminate|split; intros s4 Q; injection Q as Q _; congruence]. }
+      (* kw [arg] { ... *)
+      destruct (read_arg_sim text p1 s1 _ has arg s2 cLB s3 NE LT T1 G1 Ea E3) as (t3 & p2 & Hra & M3 & T2 & G2 & Hp2 & X1 & X2 & X3 & X4).
+      destruct (is_code _ _ _ M3) as (_ & _ & Hc3).
+      assert (Hns' : nextStatement (S mf) p =
+                subs_loop (nextStatement mf) (fun l => Stmt (t_text t) has arg (t_line t) (t_col t) (t_off t) l) mf
+                  {| lx := lx p2; toks := toks p2; depth := depth p2 + 1; hb_line := hb_line p2;
+                     hb_col := hb_col p2; hb_off := hb_off p2; oof := oof p2 |} []).
+      { rewrite Hns, ns_tail_eq, Mt, Hra, (Hc3 cSEMI), (Hc3 cLB), N.eqb_refl. reflexivity. }
+      set (p3 := {| lx := lx p2; toks := toks p2; depth := depth p2 + 1; hb_line := hb_line p2;
+                    hb_col := hb_col p2; hb_off := hb_off p2; oof := oof p2 |}) in *.
+      assert (P3 : ppos text p3 s3) by (apply PP_direct; [exact T2|exact G2]).
+      assert (Hc3' : errcnt (lx p3) = O) by (cbn [p3 lx]; congruence).
+      destruct (stmts fs text s3) as [subs cl1 s4| |] eqn:Es3; try discriminate.
+      * destruct cl1.
+        -- (* the block is read; the rest is rejected *)
+           destruct (stmts fs text s4) as [f2 cl2 r2| |] eqn:Es4; try discriminate.
+           destruct (stmts_sim text NE LT fs s3 subs true s4 Es3 p3 mf ltac:(lia) P3 Hp2)
+             as (ss1 & r1 & p4 & R1 & Em1 & Hl1 & (Y1 & Y2 & Y3) & (-> & P4 & Hp4 & D4)).
+           rewrite (subs_loop_reads mf _ p3 ss1 RBrace p4 R1 mf [] ltac:(lia)) in Hns'. cbn [rev app] in Hns'.
+           destruct (IH s4 Es4 p4 (S mf) ltac:(lia) P4 Hp4 ltac:(congruence)) as (k & Hk & Fk).
+           exists (S k). split; [lia|]. eapply F_next; [exact Hns'| |exact Fk]. cbn [p3 depth] in D4. lia.
+        -- (* the block is never closed *)
+           destruct (stmts_sim text NE LT fs s3 subs false s4 Es3 p3 mf ltac:(lia) P3 Hp2)
+             as (ss1 & r1 & p4 & R1 & Em1 & Hl1 & (Y1 & Y2 & Y3) & (-> & D4)).
+           rewrite (subs_loop_reads mf _ p3 ss1 RNil p4 R1 mf [] ltac:(lia)) in Hns'.
+           exists O. split; [lia|]. eapply F_open; [exact Hns'|]. cbn [p3 depth] in D4. lia.
+      * (* the block is rejected *)
+        destruct (IH s3 Es3 p3 mf ltac:(lia) P3 Hp2 Hc3') as (k & Hk & Fk).
+        rewrite Hns' in Hns0.
+        destruct (subs_loop_fails mf _ k p3 Fk mf [] r0 pr ltac:(lia) Hns0) as [E|[-> D]].
+        -- exists O. split; [lia|]. eapply F_err; [rewrite Hns'; exact Hns0|exact E].
+        -- exists O. split; [lia|]. eapply F_open; [rewrite Hns'; exact Hns0|]. cbn [p3 depth] in D. lia.
+  - (* a quoted string where a keyword must stand *)
+    assert (E1' : read_token text (inPattern (lx p)) s = TOk (KStr u) s1) by (rewrite Hpat; exact E1).
+    destruct (pnext_string text p s u s1 NE LT P E1') as (t & p1 & Hn1 & Hcode & _).
+    exists O. split; [lia|]. eapply F_err; [exact Hns0|].
+    rewrite nextStatement_eq, Hn1 in Hns0. unfold is_TChar, is_TUnquoted in Hns0. rewrite Hcode in Hns0. cbn [negb] in Hns0.
+    injection Hns0 as _ <-. apply add_err_nonempty.
+  - (* ; or { where a keyword must stand *)
+    destruct (N.eqb_spec c cRB) as [->|Nrb]; [discriminate|].
+    assert (E1' : read_token text (inPattern (lx p)) s = TOk (KPunct c) s1) by (rewrite Hpat; exact E1).
+    destruct (pnext_plain text p s (KPunct c) s1 NE LT P E1' ltac:(discriminate)) as (t & p1 & Hn1 & M & _).
+    destruct (is_code _ _ _ M) as (_ & Hu & Hch).
+    exists O. split; [lia|]. eapply F_err; [exact Hns0|].
+    rewrite nextStatement_eq, Hn1, (Hch cRB), Hu in Hns0.
+    rewrite (proj2 (N.eqb_neq cRB c)) in Hns0 by (intro Q; apply Nrb; symmetry; exact Q). cbn [negb] in Hns0.
+    injection Hns0 as _ <-. apply add_err_nonempty.
+  - (* the first token is rejected *)
+    exists O. split; [lia|]. eapply F_err; [exact Hns0|].
+    rewrite nextStatement_eq in Hns0. destruct (pnext p) as [t p1] eqn:Hn1.
+    assert (E1' : read_token text (inPattern (lx p)) s = TReject) by (rewrite Hpat; exact E1).
+    pose proof (pnext_rej text p s NE LT P Hc E1' _ _ Hn1) as E.
+    (* the error is already there after the first token; everything after keeps it *)
+    destruct t as [t|]; [|injection Hns0 as _ <-; exact E].
+    destruct (is_TChar cRB t); [injection Hns0 as _ <-; exact E|].
+    destruct (negb (is_TUnquoted t)); [injection Hns0 as _ <-; apply add_err_nonempty|].
+    rewrite ns_tail_eq in Hns0.
+    destruct (read_arg p1 (str_eqb (t_text t) s_pattern)) as [[[has arg] t3] p2] eqn:Hra.
+    assert (E2 : perrs p2).
+    { unfold read_arg in Hra. cbv zeta in Hra.
+      destruct (pnext (with_lx p1 (with_inPattern (lx p1) (str_eqb (t_text t) s_pattern)))) as [t2 q1] eqn:Hq1.
+      pose proof (pnext_keeps _ _ _ Hq1 E) as Eq1.
+      destruct t2 as [a|]; [|injection Hra as _ _ _ <-; exact Eq1].
+      destruct (is_TString a || is_TUnquoted a); [|injection Hra as _ _ _ <-; exact Eq1].
+      destruct (pnext (with_lx q1 (with_inPattern (lx q1) false))) as [t3' q2] eqn:Hq2. injection Hra as _ _ _ <-.
+      apply (pnext_keeps _ _ _ Hq2). exact Eq1. }
+    destruct t3 as [t3|]; [|injection Hns0 as _ <-; apply add_err_nonempty].
+    destruct (is_TChar cSEMI t3); [injection Hns0 as _ <-; exact E2|].
+    destruct (is_TChar cLB t3); [|injection Hns0 as _ <-; apply add_err_nonempty].
+    apply (subs_loop_keeps _ _ (nextStatement_keeps mf) _ _ _ _ _ Hns0). exact E2.
+Qed.
+
+Theorem Parse_rejects input : ~ In EOFR input -> spec_parse (terminated input) = Reject ->
+  forall ss es o, Parse input = (ss, es, o) -> ss = [] /\ es <> [].
+Proof.
+  intros NE0 H ss es o HP. set (T := terminated input) in *.
+  assert (NE : ~ In EOFR T).
+  { intro Q. destruct (terminated_in _ _ Q) as [Q'|Q']; [exact (NE0 Q')|vm_compute in Q'; discriminate Q']. }
+  pose proof (terminated_lf input) as LT. fold T in LT.
+  assert (P0 : ppos T (newParser input) T).
+  { apply PP_direct; [reflexivity|]. split; [reflexivity|]. split; [reflexivity|]. split; [|reflexivity].
+    destruct (newParser_inv input) as [(_ & _ & L) _]. exact L. }
+  assert (Hmf : (S (length T) <= parse_fuel input)%nat).
+  { unfold parse_fuel. pose proof (terminated_length input) as Q. fold T in Q. lia. }
+  assert (Main : forall ss0 p, parse_loop (parse_fuel input) (parse_fuel input) (newParser input) [] = (ss0, p) ->
+                 perrs p \/ depth p <> 0).
+  { intros ss0 p Hl. unfold spec_parse in H. destruct (stmts (S (length T)) T T) as [f0 cl rest| |] eqn:Es; try discriminate.
+    - destruct cl; [|discriminate].
+      destruct (stmts_sim T NE LT _ _ _ _ _ Es (newParser input) (parse_fuel input) Hmf P0 eq_refl)
+        as (ss1 & r & p' & R & _ & Hl1 & _ & (-> & _)).
+      left. apply (parse_loop_reads_brace _ _ _ _ R (parse_fuel input) [] ss0 p ltac:(lia) Hl).
+    - destruct (stmts_rej T NE LT _ _ Es (newParser input) (parse_fuel input) Hmf P0 eq_refl eq_refl) as (k & Hk & Fk).
+      destruct (parse_loop_fails _ _ _ Fk (parse_fuel input) [] ss0 p ltac:(lia) Hl) as [E|D]; [left; exact E|right].
+      change (depth (newParser input)) with 0 in D. lia. }
+  unfold Parse in HP. cbv zeta in HP.
+  destruct (parse_loop (parse_fuel input) (parse_fuel input) (newParser input) []) as [ss0 p] eqn:Hl.
+  specialize (Main _ _ eq_refl).
+  assert (Hfin : errs (lx (match errs (lx p) with
+                           | [] => if depth p =? 0 then p else add_err p (Some (line (cu (lx p)), col (cu (lx p)))) EMissingBraces None
+                           | _ :: _ => p end)) <> []).
+  { destruct (errs (lx p)) as [|e es0] eqn:Ee.
+    - destruct Main as [E|D]; [exfalso; apply E; exact Ee|]. destruct (Z.eqb_spec (depth p) 0); [contradiction|]. apply add_err_nonempty.
+    - rewrite Ee. discriminate. }
+  match type of HP with context [errs (lx ?q)] => destruct (errs (lx q)) as [|e es0] eqn:Ee end; [contradiction|].
+  injection HP as <- <- _. split; [reflexivity|]. intro Q. apply (f_equal (@length perr)) in Q. rewrite app_length in Q. cbn in Q. lia.
+Qed.
+
+(* ================================================================ C16: an accepted forest holds no placeholder statement *)
+Lemma stmt_real_eq kw h a ln cl off subs :
+  stmt_real (Stmt kw h a ln cl off subs) <-> (kw <> [] /\ Forall stmt_real subs).
+Proof.
+  cbn [stmt_real].
+  assert (E : forall l, (fix all (l : list stmt) : Prop := match l with [] => True | x :: r => stmt_real x /\ all r end) l
+                        <-> Forall stmt_real l).
+  { induction l as [|x r IH]; [split; auto|]. split.
+    - intros [A B]. constructor; [exact A|apply IH; exact B].
+    - intros H. inversion H; subst. split; [assumption|apply IH; assumption]. }
+  rewrite E. reflexivity.
+Qed.
+
+Definition real_or_err (p : parser) (l : list stmt) : Prop := perrs p \/ Forall stmt_real l.
+
+Lemma subs_loop_real text ns mk :
+  (forall p r p', PInv text p -> ns p = (r, p') -> PInv text p' /\ (r = RIgnore -> perrs p') /\ (forall s, r = RStmt s -> real_or_err p' [s])) ->
+  (forall p r p', ns p = (r, p') -> pkeeps p p') ->
+  (forall l, Forall stmt_real l -> stmt_real (mk l)) ->
+  forall n p acc r p', PInv text p -> real_or_err p acc -> subs_loop ns mk n p acc = (r, p') ->
+  r <> RIgnore /\ (forall s, r = RStmt s -> real_or_err p' [s]).
+Proof.
+  intros Hns Hk Hmk. induction n as [|n IH]; intros p acc r p' HP HA H; cbn [subs_loop] in H.
+  - injection H as <- <-. split; discriminate.
+  - destruct (ns p) as [r1 p1] eqn:H1. destruct (Hns _ _ _ HP H1) as (HP1 & Hi & Hs). pose proof (Hk _ _ _ H1) as K1.
+    assert (HA1 : real_or_err p1 acc) by (destruct HA as [E|F]; [left; apply K1; exact E|right; exact F]).
+    destruct r1.
+    + injection H as <- <-. split; discriminate.
+    + injection H as <- <-. split; [discriminate|]. intros s Q; injection Q as <-.
+      destruct HA1 as [E|F]; [left; exact E|right]. constructor; [|constructor]. apply Hmk. apply Forall_rev. exact F.
+    + apply (IH _ _ _ _ HP1 (or_introl (Hi eq_refl)) H).
+    + refine (IH _ _ _ _ HP1 _ H). destruct (Hs _ eq_refl) as [E|F]; [left; exact E|].
+      destruct HA1 as [E|F']; [left; exact E|right]. constructor; [inversion F; assumption|exact F'].
+Qed.
+
+Lemma nextStatement_real text fuel : forall p r p', PInv text p -> nextStatement fuel p = (r, p') ->
+  (r = RIgnore -> perrs p') /\ (forall s, r = RStmt s -> real_or_err p' [s]).
+Proof.
+  induction fuel as [|f IH]; intros p r p' HP H.
+  - cbn [nextStatement] in H. injection H as <- <-. split; discriminate.
+  - rewrite nextStatement_eq in H.
+    destruct (pnext p) as [t p1] eqn:H1. destruct (pnext_inv text _ _ _ HP H1) as [HP1 Ht].
+    destruct t as [t|]; [|injection H as <- <-; split; discriminate].
+    pose proof (Ht _ eq_refl) as [Hpos Hclaim].
+    destruct (is_TChar cRB t); [injection H as <- <-; split; discriminate|].
+    destruct (is_TUnquoted t) eqn:Hu; cbn [negb] in H.
+    2:{ injection H as <- <-. split; [intros _; apply add_err_nonempty|discriminate]. }
+    assert (Hkw : t_text t <> []).
+    { unfold is_TUnquoted in Hu. destruct (t_code t); try discriminate. apply Hclaim. }
+    unfold ns_tail in H. cbv zeta in H.
+    pose proof (with_inPattern_inv text p1 (str_eqb (t_text t) s_pattern) HP1) as HP2.
+    destruct (pnext (with_lx p1 (with_inPattern (lx p1) (str_eqb (t_text t) s_pattern)))) as [t2 p3] eqn:H3.
+    destruct (pnext_inv text _ _ _ HP2 H3) as [HP3 _].
+    pose proof (with_inPattern_inv text p3 false HP3) as HP4.
+    set (p4 := with_lx p3 (with_inPattern (lx p3) false)) in *.
+    assert (Tail : forall has arg t3 p5, PInv text p5 ->
+              match t3 with
+              | None => (RNil, add_err p5 None EUnexpectedEOF None)
+              | Some t3 =>
+                if is_TChar cSEMI t3 then (RStmt (Stmt (t_text t) has arg (t_line t) (t_col t) (t_off t) []), p5)
+                else if is_TChar cLB t3 then
+                  subs_loop (nextStatement f) (fun l => Stmt (t_text t) has arg (t_line t) (t_col t) (t_off t) l) f
+                    {| lx := lx p5; toks := toks p5; depth := depth p5 + 1; hb_line := hb_line p5;
+                       hb_col := hb_col p5; hb_off := hb_off p5; oof := oof p5 |} []
+                else (RIgnore, add_err p5 (tok_pos t3) ESyntax (Some (t_off t3)))
+              end = (r, p') -> (r = RIgnore -> perrs p') /\ (forall s, r = RStmt s -> real_or_err p' [s])).
+    { intros has arg t3 p5 HP5 Q. destruct t3 as [t3|]; [|injection Q as <- <-; split; discriminate].
+      destruct (is_TChar cSEMI t3).
+      - injection Q as <- <-. split; [discriminate|]. intros s Q; injection Q as <-. right. constructor; [|constructor].
+        apply stmt_real_eq. split; [exact Hkw|constructor].
+      - destruct (is_TChar cLB t3); [|injection Q as <- <-; split; [intros _; apply add_err_nonempty|discriminate]].
+        destruct (subs_loop_real text (nextStatement f) _
+                    ltac:(intros q r1 q' HQ E; destruct (nextStatement_inv text f q r1 q' HQ E) as (A & _); destruct (IH q r1 q' HQ E); auto)
+                    (nextStatement_keeps f)
+                    ltac:(intros l Hl; apply stmt_real_eq; split; [exact Hkw|exact Hl])
+                    _ _ _ _ _ (HP5 : PInv text (Build_parser _ _ _ _ _ _ _)) (or_intror (Forall_nil _)) Q) as (A & B).
+        split; [intro E; contradiction|exact B]. }
+    destruct t2 as [a|].
+    + destruct (is_TString a || is_TUnquoted a).
+      * destruct (pnext p4) as [t3 p5] eqn:H5. destruct (pnext_inv text _ _ _ HP4 H5) as [HP5 _].
+        apply (Tail true (t_text a) t3 p5 HP5 H).
+      * apply (Tail false [] (Some a) p4 HP4 H).
+    + apply (Tail false [] None p4 HP4 H).
+Qed.
+
+Lemma parse_loop_real text fuel : forall n p acc ss p', PInv text p -> real_or_err p acc ->
+  parse_loop fuel n p acc = (ss, p') -> real_or_err p' ss.
+Proof.
+  induction n as [|n IH]; intros p acc ss p' HP HA H; cbn [parse_loop] in H.
+  - injection H as <- <-. destruct HA as [E|F]; [left; exact E|right; apply Forall_rev; exact F].
+  - destruct (nextStatement fuel p) as [r p1] eqn:H1.
+    destruct (nextStatement_inv text _ _ _ _ HP H1) as (HP1 & Hb & _).
+    destruct (nextStatement_real text _ _ _ _ HP H1) as (Hi & Hs).
+    pose proof (nextStatement_keeps _ _ _ _ H1) as K1.
+    assert (HA1 : real_or_err p1 acc) by (destruct HA as [E|F]; [left; apply K1; exact E|right; exact F]).
+    destruct r.
+    + injection H as <- <-. destruct HA1 as [E|F]; [left; exact E|right; apply Forall_rev; exact F].
+    + refine (IH _ _ _ _ _ (or_introl (add_err_nonempty _ _ _ _)) H).
+      apply add_err_inv; [exact HP1|]. apply err_ok_intro. apply Hb. reflexivity.
+    + apply (IH _ _ _ _ HP1 (or_introl (Hi eq_refl)) H).
+    + refine (IH _ _ _ _ HP1 _ H). destruct (Hs _ eq_refl) as [E|F]; [left; exact E|].
+      destruct HA1 as [E|F']; [left; exact E|right]. constructor; [inversion F; assumption|exact F'].
+Qed.
+
+Lemma Parse_statements_real input ss o : Parse input = (ss, [], o) -> Forall stmt_real ss.
+Proof.
+  unfold Parse. cbv zeta.
+  destruct (parse_loop (parse_fuel input) (parse_fuel input) (newParser input) []) as [ss0 p] eqn:Hl.
+  pose proof (parse_loop_real (terminated input) _ _ _ _ _ _ (newParser_inv input) (or_intror (Forall_nil _)) Hl) as R.
+  destruct (errs (lx p)) as [|e es] eqn:Ee.
+  - destruct (depth p =? 0).
+    + rewrite Ee. intro Q. injection Q as <- _. destruct R as [E|F]; [exfalso; apply E; exact Ee|exact F].
+    + cbn [add_err with_lx lx errs]. intro Q. injection Q as _ Q _. exfalso. apply (f_equal (@length perr)) in Q.
+      rewrite app_length in Q. cbn in Q. lia.
+  - rewrite Ee. intro Q. injection Q as _ Q _. exfalso. apply (f_equal (@length perr)) in Q. rewrite app_length in Q. cbn in Q. lia.
+Qed.
